@@ -14,7 +14,7 @@ import sys
 from .. import core, fsseam, workload
 from ..core import bump, EventLog
 from ..forkrun import fork_call
-from ..threads import Baton
+from ..threads import Baton, Stalled
 from ..streams import StdShape, SimRawSink
 
 ID = 'C16'
@@ -540,7 +540,12 @@ def child_enumerate(sc):
             def fn():
                 outs[i] = run_op(t, sc['ops'][i], baton, i)
             return fn
-        baton.run([mk(i) for i in range(n)])
+        try:
+            baton.run([mk(i) for i in range(n)])
+        except Stalled as e:
+            explored += 1
+            bad = {'thread': None, 'picks': prefix, 'outcome': ['stalled', e.info], 'schedule': ''.join(str(ev[1]) for ev in log.events)}
+            break
         explored += 1
         taken = [k for (_cnt, k) in baton.choice_log]
         for i in range(len(baton.choice_log) - 1, len(prefix) - 1, -1):
@@ -576,7 +581,12 @@ def child_interleaved(sc):
         def fn():
             outs[i] = run_op(t, sc['ops'][i], baton, i)
         return fn
-    baton.run([mk(i) for i in range(n)])
+    try:
+        baton.run([mk(i) for i in range(n)])
+    except Stalled as e:
+        # no thread can move: the one holding the turn waits for something a suspended one holds
+        return {'stalled': e.info, 'outcomes': outs, 'sched': ''.join(str(ev[1]) for ev in log.events), 'switches': baton.switches, 'overlap_switches': 0,
+                'yields': baton.yields, 'errors': baton.errors, 'state': [False, False], 'process_state_changed': []}
     # projected schedule and overlap analysis
     sched = [e[1] for e in log.events]
     started = [False] * n
@@ -695,6 +705,12 @@ def generate(rng, tier, idx):
                           ['err_runtime', 'agg_group', 'unnest', 'err_agg_misuse', 'init_code_raises'], ['update', 'update_nu', 'distinct', 'top', 'limit_distinct']])
         kinds = rng.sample(fam, min(n, len(fam)))
     ops = [gen_op(rng, k, api=rng.choice(['iter', 'iter', 'iter', 'csviter']), max_rows=4, pool=(40 if tier == 'quick' else 400)) for k in kinds]
+    for op in ops:
+        if op['api'] not in ('iter', 'csviter', 'table'):
+            # Threads get the seam-level APIs only. The file / CLI front-ends work on one process-wide sys.stdout and, in this
+            # harness, one work directory: two of them at once would interfere by construction of the harness, not of RBQL.
+            # (Thorough soak, seed 303: WITH-modifier kinds had slipped through with api 'csv' and raised a false alarm.)
+            op['api'] = 'csviter' if op['rows'] else 'iter'
     if len(ops) == 2 and rng.random() < (0.004 if tier == 'quick' else 0.03):
         # exhaustive: every interleaving of the seam steps of two queries over one-record tables
         for op in ops:
@@ -757,14 +773,24 @@ def execute(sc):
             # failure to the ones before it: the replayable case is the enumeration up to and including that schedule
             case = dict(sc)
             case['max_schedules'] = obs['explored']
+            if b['thread'] is None:
+                b = dict(b, thread=0)      # a stall has no single victim: report it under the first query's kind
             res.update(verdict='violation', oracle='interleaving', case=case,
                        detail={'thread': b['thread'], 'kind': sc['ops'][b['thread']]['kind'], 'others': [o['kind'] for j, o in enumerate(sc['ops']) if j != b['thread']],
                                'interleaved': b['outcome'], 'alone': refs[b['thread']], 'schedule': b['schedule'][:200], 'found_by': 'enumeration'})
         res['digest'] = core.digest(_hash_neutral([obs['explored'], obs['complete'], obs['bad'], refs]))
         return res
-    obs = fork_call(child_interleaved, sc)
+    obs = fork_call(child_interleaved, sc, timeout_s=150)
     res['steps'] = obs['yields']
     bump(counters, 'part.B')
+    if obs.get('stalled'):
+        kinds = [op['kind'] for op in sc['ops']]
+        res['key'] = core.key64([kinds, obs['sched']])
+        res.update(verdict='violation', oracle='interleaving',
+                   detail={'thread': 0, 'kind': kinds[0], 'others': kinds[1:], 'interleaved': ['stalled', obs['stalled']], 'alone': refs[0],
+                           'schedule': obs['sched'][:200], 'found_by': 'no thread can move: the one holding the turn waits for something a suspended one holds'})
+        res['digest'] = core.digest(_hash_neutral([kinds, obs['sched'], 'stalled']))
+        return res
     bump(counters, 'sched.switches', obs['switches'])
     if sc.get('line_every'):
         bump(counters, 'sched.line_level_runs')
